@@ -216,7 +216,25 @@ var focus = []string{"pipcommands/pipc", "pipservices/runner", "pipservices/task
 
 func mkProgram(sp Spec) *explore.Program {
 	o := &obs{}
-	return &explore.Program{Prop: "C16", Name: sp.name(), Spec: sp,
+	var reach []explore.ReachGoal
+	if sp.HandlerFails != "" && sp.HandlerFails != "finally" && sp.Finally {
+		// per execution a failing handler may cut the concurrently running finally handler short (they
+		// share the surrounding context); but the failure of one handler must not make the finally
+		// handler impossible: some schedule of the program has to run it
+		reach = append(reach, explore.ReachGoal{Name: "finally-handler-when-" + sp.HandlerFails + "-handler-fails",
+			Clause: "the finally handler runs in both cases (handlers that themselves fail)",
+			Hit:    func() bool { return o.w != nil && len(o.w.EventsOf("finally.")) > 0 }})
+	}
+	if sp.HandlerFails == "finally" {
+		want := "fail"
+		if !sp.bodyFails() {
+			want = "success"
+		}
+		reach = append(reach, explore.ReachGoal{Name: want + "-handler-when-finally-handler-fails",
+			Clause: "the matching handler runs (handlers that themselves fail)",
+			Hit:    func() bool { return o.w != nil && len(o.w.EventsOf(want+".")) > 0 }})
+	}
+	return &explore.Program{Prop: "C16", Name: sp.name(), Spec: sp, Reach: reach,
 		Opt:  explore.Options{Bound: sp.Bound, Focus: focus, MaxSteps: 30000, HBR: true, HBRAuxNeutral: true, NoShard: true, SelectCost: -1},
 		Body: build(sp, o), Judge: judge(sp, o),
 		Outcome: func() string {
@@ -253,16 +271,20 @@ func replay(wj json.RawMessage) (*fw.Violation, error) {
 	var w struct {
 		Spec    Spec  `json:"spec"`
 		Choices []int `json:"choices"`
+		Reach   string `json:"reach"`
 	}
 	if err := json.Unmarshal(wj, &w); err != nil {
 		return nil, err
+	}
+	if w.Reach != "" {
+		return explore.ReplayReach(mkProgram(w.Spec), w.Reach)
 	}
 	return explore.ReplayProgram(mkProgram(w.Spec), w.Choices)
 }
 
 func init() {
 	fw.Register(&fw.Check{ID: "C16", Level: "model_checking",
-		Rule: "programs = body {succeeds, fails at command 1 / 2, appends an error, spawns a nested task that succeeds / fails} x every subset of {success, fail, finally} handlers x one failing handler; the script `pip:try ...` followed by another command is fed to the real terminal loop of a mock application bootstrapped per execution, probe commands log begin/end; every schedule within the bound (quick: free context switches at blocking points; thorough: 1 preemption, nested bodies free switches only) with a happens-before state cache; oracle: which handlers ran, handler begin after the end of the body and of every task it spawned, error state of the surrounding scope, the script continuing after the block, no panic, no deadlock. states = distinct schedule traces",
+		Rule: "programs = body {succeeds, fails at command 1 / 2, appends an error, spawns a nested task that succeeds / fails} x every subset of {success, fail, finally} handlers x one failing handler; the script `pip:try ...` followed by another command is fed to the real terminal loop of a mock application bootstrapped per execution, probe commands log begin/end; every schedule within the bound (quick: free context switches at blocking points; thorough: 1 preemption, nested bodies free switches only) with a happens-before state cache; oracle: which handlers ran, handler begin after the end of the body and of every task it spawned, error state of the surrounding scope, the script continuing after the block, no panic, no deadlock; for programs with a failing handler additionally reachability over the explored schedule set: some schedule runs the finally handler (resp. the matching handler when finally is the failing one). states = distinct schedule traces",
 		Run: run, Replay: replay,
 		Assumptions: []string{"the finally handler is submitted first; when it fails the remaining handlers are not started (the handler failure is what is reported)", "accesses to objects outside the focus packages do not order executions in the happens-before cache (declared reduction)"}})
 }
